@@ -33,7 +33,7 @@ def describe(tier):
             "occur; only literals that ARE a bare operator are excluded, as in the statement) x quote in {',\"}. Concatenation: every chain of 2 literals "
             f"(contents <= {L2}), 3 literals (contents <= 1) and 4 literals (contents from a 4-menu) x every separator spelling {[s.decode() for s in SEPS]} x 4 spacings "
             "(none, spaces, VB line continuation, tab) x 3 embeddings. Reversal: reverse(/reversed(/StrReverse( x inner spacing x every literal. "
-            "Replacement: 4 dialects x (x, a, b) over the same literal set with non-empty a (overlapping occurrences such as aaa/aa, b containing a, "
+            "Replacement: 4 dialects (the JS regex dialect with every flag set of {'', g, i, gi, m, gim}) x (x, a, b) over the same literal set with non-empty a (overlapping occurrences such as aaa/aa, b containing a, "
             "empty b) x spacing. Each expression is given to the dialect's decoder; the COMPLETE result list must equal the single expected node "
             "(type, label, value from Python semantics on the unquoted contents: join / [::-1] / bytes.replace, span = whole expression). Every chain "
             "is also scanned with the shipped registry and the expected node must be present at the expression's absolute span. "
@@ -153,7 +153,10 @@ INNER = [(b"", b""), (b" ", b" "), (b"\t", b""), (b"", b"\n")]
 DIALECTS = ["method", "vba", "powershell", "jsregex"]
 
 
-def repl_expr(d, x, a, b, q, sp):
+JS_FLAGS = [b"g", b"", b"i", b"gi", b"m", b"gim"]
+
+
+def repl_expr(d, x, a, b, q, sp, flags=b"g"):
     s1, s2 = sp
     X, A, B = lit(x, q), lit(a, q), lit(b, q)
     if d == 0:
@@ -162,7 +165,7 @@ def repl_expr(d, x, a, b, q, sp):
         return b"Replace(" + s1 + X + s1 + b"," + s2 + A + s1 + b"," + s2 + B + s1 + b")", replace.find_vba_replace, "vba.string", "vba.replace"
     if d == 2:
         return X + (s1 or b" ") + b"-replace" + s2 + A + s1 + b"," + s2 + B, replace.find_powershell_replace, "powershell.string", "replace"
-    return X + b".replace(/" + a + b"/g" + s1 + b"," + s2 + B + s1 + b")", replace.find_js_regex_replace, "javascript.string", "replace"
+    return X + b".replace(/" + a + b"/" + flags + s1 + b"," + s2 + B + s1 + b")", replace.find_js_regex_replace, "javascript.string", "replace"
 
 
 JS_META = set(b"/[](){}\\.+*?^$,")
@@ -211,8 +214,8 @@ def run_unit(unit, rec):
                     continue
                 for b in (b"", b"b", b"a", a + a, b"_;"):
                     for q in (b'"', b"'"):
-                        for sp in SPACING[:2] + [(b"", b" ")]:
-                            expr, fn, typ, lab = repl_expr(d, x, a, b, q, sp)
+                        for sp, flags in [(sp, fl) for sp in SPACING[:2] + [(b"", b" ")] for fl in (JS_FLAGS if d == 3 else [b"g"])]:
+                            expr, fn, typ, lab = repl_expr(d, x, a, b, q, sp, flags)
                             for pre, suf in EMBED[:2]:
                                 data = pre + expr + suf
                                 val = x.replace(a, b)
@@ -220,7 +223,7 @@ def run_unit(unit, rec):
                                 if val != x:
                                     rec.mark("nontrivial", data, True)
                                 n += 1
-                                expect_one(rec, "C15.replace", fn, data, exp, {"kind": "repl", "dialect": d, "data": data, "x": x, "a": a, "b": b, "start": len(pre),
+                                expect_one(rec, "C15.replace", fn, data, exp, {"kind": "repl", "dialect": d, "data": data, "x": x, "a": a, "b": b, "flags": flags, "start": len(pre),
                                                                               "end": len(pre) + len(expr)}, scan=False)
         rec.sample({"family": "replace-" + DIALECTS[d], "expressions": n, "last": data})
 
@@ -236,5 +239,5 @@ def replay(w, rec):
             if name == w["fn"]:
                 expect_one(rec, "C15.reverse", fn, data, (typ, w["content"][::-1], lab, w["start"], w["end"]), w, scan=True)
     elif k == "repl":
-        _, fn, typ, lab = repl_expr(w["dialect"], w["x"], w["a"], w["b"], b'"', SPACING[0])
+        _, fn, typ, lab = repl_expr(w["dialect"], w["x"], w["a"], w["b"], b'"', SPACING[0], w.get("flags", b"g"))
         expect_one(rec, "C15.replace", fn, data, (typ, w["x"].replace(w["a"], w["b"]), lab, w["start"], w["end"]), w)
